@@ -134,25 +134,24 @@ def _get_function_results(  # noqa: PLR0913
     if transforms is not None and transforms.variables:
         variables = transforms.variables.from_optimizer(variables)
     evaluator_result = evaluator(np.repeat(variables, realization_num, axis=0), context)
+    # The object returned by the evaluator is owned by the user, do not modify it:
+    result_objectives = evaluator_result.objectives
+    result_constraints = evaluator_result.constraints
     if transforms is not None:
         if transforms.objectives is not None:
-            evaluator_result.objectives = transforms.objectives.to_optimizer(
-                evaluator_result.objectives
-            )
+            result_objectives = transforms.objectives.to_optimizer(result_objectives)
         if (
-            evaluator_result.constraints is not None
+            result_constraints is not None
             and transforms.nonlinear_constraints is not None
         ):
-            evaluator_result.constraints = (
-                transforms.nonlinear_constraints.to_optimizer(
-                    evaluator_result.constraints
-                )
+            result_constraints = transforms.nonlinear_constraints.to_optimizer(
+                result_constraints
             )
-    split_objectives = np.vsplit(evaluator_result.objectives, variables.shape[0])
+    split_objectives = np.vsplit(result_objectives, variables.shape[0])
     split_constraints = (
         []
-        if evaluator_result.constraints is None
-        else np.vsplit(evaluator_result.constraints, variables.shape[0])
+        if result_constraints is None
+        else np.vsplit(result_constraints, variables.shape[0])
     )
     split_infos = {
         key: np.split(value, variables.shape[0])
@@ -193,24 +192,23 @@ def _get_gradient_results(  # noqa: PLR0913
     if transforms is not None and transforms.variables:
         variables = transforms.variables.from_optimizer(variables)
     evaluator_result = evaluator(variables, context)
+    # The object returned by the evaluator is owned by the user, do not modify it:
+    result_objectives = evaluator_result.objectives
+    result_constraints = evaluator_result.constraints
     if transforms is not None:
         if transforms.objectives is not None:
-            evaluator_result.objectives = transforms.objectives.to_optimizer(
-                evaluator_result.objectives
-            )
+            result_objectives = transforms.objectives.to_optimizer(result_objectives)
         if (
-            evaluator_result.constraints is not None
+            result_constraints is not None
             and transforms.nonlinear_constraints is not None
         ):
-            evaluator_result.constraints = (
-                transforms.nonlinear_constraints.to_optimizer(
-                    evaluator_result.constraints
-                )
+            result_constraints = transforms.nonlinear_constraints.to_optimizer(
+                result_constraints
             )
     return _GradientEvaluatorResults(
         batch_id=evaluator_result.batch_id,
-        perturbed_objectives=evaluator_result.objectives,
-        perturbed_constraints=evaluator_result.constraints,
+        perturbed_objectives=result_objectives,
+        perturbed_constraints=result_constraints,
         evaluation_info=evaluator_result.evaluation_info,
         realization_count=config.realizations.weights.size,
         perturbation_count=config.gradient.number_of_perturbations,
@@ -255,28 +253,27 @@ def _get_function_and_gradient_results(  # noqa: PLR0913
     if transforms is not None and transforms.variables:
         all_variables = transforms.variables.from_optimizer(all_variables)
     evaluator_result = evaluator(all_variables, context)
+    # The object returned by the evaluator is owned by the user, do not modify it:
+    result_objectives = evaluator_result.objectives
+    result_constraints = evaluator_result.constraints
     if transforms is not None:
         if transforms.objectives is not None:
-            evaluator_result.objectives = transforms.objectives.to_optimizer(
-                evaluator_result.objectives
-            )
+            result_objectives = transforms.objectives.to_optimizer(result_objectives)
         if (
-            evaluator_result.constraints is not None
+            result_constraints is not None
             and transforms.nonlinear_constraints is not None
         ):
-            evaluator_result.constraints = (
-                transforms.nonlinear_constraints.to_optimizer(
-                    evaluator_result.constraints
-                )
+            result_constraints = transforms.nonlinear_constraints.to_optimizer(
+                result_constraints
             )
     return (
         _FunctionEvaluatorResults(
             batch_id=evaluator_result.batch_id,
-            objectives=evaluator_result.objectives[:realization_num],
+            objectives=result_objectives[:realization_num],
             constraints=(
                 None
-                if evaluator_result.constraints is None
-                else evaluator_result.constraints[:realization_num]
+                if result_constraints is None
+                else result_constraints[:realization_num]
             ),
             evaluation_info={
                 key: value[:realization_num]
@@ -285,11 +282,11 @@ def _get_function_and_gradient_results(  # noqa: PLR0913
         ),
         _GradientEvaluatorResults(
             batch_id=evaluator_result.batch_id,
-            perturbed_objectives=evaluator_result.objectives[realization_num:, :],
+            perturbed_objectives=result_objectives[realization_num:, :],
             perturbed_constraints=(
                 None
-                if evaluator_result.constraints is None
-                else evaluator_result.constraints[realization_num:, :]
+                if result_constraints is None
+                else result_constraints[realization_num:, :]
             ),
             evaluation_info={
                 key: value[realization_num:]
